@@ -520,14 +520,26 @@ pub fn bfs_check<const N: usize>(prop: &str, o: &Opts, rep: &mut Report) {
 /// the free space, the ends and beyond).  Not a fixpoint over histories: one canonical history per layout.
 pub fn large_probe<const N: usize>(prop: &str, o: &Opts, rep: &mut Report) {
     use Act::*;
-    rep.notes.push(format!("N={}: extension capacity, every layout x boundary-value alphabet, one history per layout {}", N, calib::<N>().note));
+    rep.notes.push(format!("N={}: extension capacity, {} x boundary-value alphabet, one history per layout {}", N, if N > 100 { "a boundary grid of layouts" } else { "every layout" }, calib::<N>().note));
     let prop_s = prop.to_string();
     let mut layouts = std::collections::BTreeSet::new();
     let mut idx = 0usize;
+    // beyond 100 slots: a boundary grid of layouts instead of all of them (front slot and length at 0, 1, 2, the
+    // middle, around 127/128/129 and 255/256/257 where they exist, and right below N)
+    let grid: Vec<usize> = {
+        let mut g = vec![0, 1, 2, N / 2, 127, 128, 129, 255, 256, 257, N.saturating_sub(2), N.saturating_sub(1), N];
+        g.retain(|&x| x <= N);
+        g.sort();
+        g.dedup();
+        g
+    };
     for s in 0..N {
         for l in 0..=N {
             if s > 0 && l == 0 {
                 continue; // (emptying the buffer resets the front position)
+            }
+            if N > 100 && !(grid.contains(&s) && grid.contains(&l)) {
+                continue;
             }
             idx += 1;
             if !o.mine(idx) {
@@ -549,6 +561,9 @@ pub fn large_probe<const N: usize>(prop: &str, o: &Opts, rep: &mut Report) {
             let first = N - s; // elements in the first physical piece when wrapped
             let free = N - l;
             let mut pts: Vec<usize> = vec![0, 1, 2, l / 2, l.saturating_sub(1), l, first.min(l), first.min(l).saturating_sub(1), first.min(l) + 1];
+            if N > 100 {
+                pts.extend([127, 128, 129, 255, 256, 257]);
+            }
             pts.retain(|&x| x <= l);
             pts.sort();
             pts.dedup();
@@ -558,6 +573,9 @@ pub fn large_probe<const N: usize>(prop: &str, o: &Opts, rep: &mut Report) {
             }
             probes.extend([Swap(0, l.saturating_sub(1)), Swap(l / 2, 0), Swap(first.min(l).saturating_sub(1), first.min(l))]);
             let mut sizes: Vec<usize> = vec![0, 1, 2, 15, 16, 17, 32, 33, free.saturating_sub(1), free, free + 1, first, N - 1, N, N + 1, 2 * N + 1];
+            if N > 100 {
+                sizes.extend([127, 128, 129, 255, 256, 257]);
+            }
             sizes.sort();
             sizes.dedup();
             for &m in &sizes {
